@@ -124,6 +124,9 @@ impl Sim {
     pub fn step(&mut self, g: &Grammar, a: Act, observe_now: bool) -> Result<(), (String, String)> {
         let uid_before = uid_map(&self.file);
         self.apply(g, a).map_err(|e| (if e.starts_with("panic") { "panic".to_string() } else { "machinery".to_string() }, e))?;
+        if let Err(w) = crate::c08::index_coherent(&self.file) {
+            return Err(("name-index-incoherent".to_string(), format!("after {a:?}: {w}")));
+        }
         if !observe_now {
             return Ok(());
         }
